@@ -50,6 +50,12 @@ Definition parsed_eqb (a b : parsed) : bool :=
   rows_eqb (snd a) (snd b).
 Definition chk_parse (noise : bool) (n_dt : nat) (H : list hentry) (impl : result parsed) : N * N * N :=
   okb (result_eqb parsed_eqb (parse_hamiltonian noise n_dt H) impl).
+(* identifiers only (with duplicate identifiers the order of the tied operators depends on NumPy's sort) *)
+Definition chk_parse_ids (noise : bool) (n_dt : nat) (H : list hentry) (impl : list string) : N * N * N :=
+  match parse_hamiltonian noise n_dt H with
+  | Ok r => okb (list_eqb String.eqb (snd (fst r)) impl)
+  | Raise _ => okb false
+  end.
 (* __getitem__: the selected segment positions (decoded from pairwise distinct durations) or the exception *)
 Definition getitem_idx (len : nat) (k : key) : result (list nat) :=
   match key_indices k len with
